@@ -150,6 +150,13 @@ def run(tier, rng, C):
                     print("VIOLATION property=C09 replay=%s" % path.replace(C.VERIF + "/", ""))
         v += bad
         stats["large_body_cases"] = len(big)
+        # whole device-flow poll sessions (blocking through all four adapters, future-based through reqwest) against the same
+        # session with an in-memory client: theorem C09_session_identical
+        from gen import same as SAME
+        bad_same, n_same = SAME.run("C09", SAME.poll_cases(rng), C)
+        v += bad_same
+        stats["poll_sessions_through_adapters"] = n_same
+        stats["evaluations"] = stats.get("evaluations", 0) + n_same
         stats["evaluations"] = stats.get("evaluations", 0) + len(big)
     finally:
         C.IMPL_BIN[0] = C.HARNESS_BIN
